@@ -1010,6 +1010,115 @@ Proof.
     eapply (ready_digest_unique g' Ig'); eauto. congruence.
 Qed.
 End OneStep3.
+
+Lemma INV3_init : INV3 ginit.
+Proof.
+  unfold INV3. split; [|split; [|split; [|split]]].
+  - intros q l tg F. cbn in F. discriminate.
+  - intros l dst x [].
+  - intros T0 q tg d [C|C]; unfold ginit, pinit in C; cbn [gp rd ed] in C; lia.
+  - intros q tg d C. unfold ginit, pinit in C. cbn [gp rd ed] in C. lia.
+  - intros q tg d TL. exists []. cbn. split; [constructor|]. split; [reflexivity|]. split; [intros l []|].
+    intros l F. discriminate.
+Qed.
+
+Lemma INV3_step : forall g e, INV g -> INV3 g -> INV3 (gstep g e).
+Proof.
+  intros g e I (A0 & A1 & A2 & A3 & A4).
+  destruct (gstep_cases3 g e) as [E|(p & st' & out & r & offer & Hp & Q & Q3 & CR & E1 & E2 & E3)].
+  - rewrite E. unfold INV3. auto.
+  - pose proof (INV_step g e I) as I'. unfold INV3. split; [|split; [|split; [|split]]].
+    + eapply G0_step; eauto.
+    + eapply G1_step; eauto.
+    + eapply G2_step; eauto.
+    + eapply G3_step; eauto.
+    + eapply G4_step; eauto.
+Qed.
+
+Theorem INV3_run : forall es, INV (run es) /\ INV3 (run es).
+Proof.
+  intros es. apply (grun_ind n t skip H toolong byz (fun g => INV g /\ INV3 g)).
+  - split; [exact INV_init|exact INV3_init].
+  - intros g e [I I3]. split; [apply INV_step; exact I|apply INV3_step; auto].
+Qed.
+
+(* every r-ready an honest party sent has been handed over to its honest receivers *)
+Definition ready_quiescent (g : gst) : Prop :=
+  forall l q m, In (l, q, m) (gsent g) -> m_act m = 3 -> hon q -> filt (gp g q) FReady l (mtag m) = true.
+
+Definition notB (l : Z) : bool := negb (existsb (Z.eqb l) B).
+Lemma notB_spec : forall l, notB l = true <-> ~ In l B.
+Proof.
+  intros l. unfold notB. rewrite negb_true_iff. split.
+  - intros E I. apply in_existsb_eqb in I. congruence.
+  - intros N. destruct (existsb (Z.eqb l) B) eqn:E; auto. apply in_existsb_eqb in E. contradiction.
+Qed.
+Lemma filter_notB_length : forall L, NoDup L -> (length L <= length (filter notB L) + length B)%nat.
+Proof.
+  intros L ND.
+  assert (S : (length (filter notB L) + length (filter (fun l => negb (notB l)) L) = length L)%nat).
+  { clear. induction L as [|a r IH]; cbn; auto. destruct (notB a); cbn; lia. }
+  assert (I : incl (filter (fun l => negb (notB l)) L) B).
+  { intros l J. apply filter_In in J. destruct J as [_ J]. apply negb_true_iff in J.
+    destruct (in_dec Z.eq_dec l B); auto. apply notB_spec in n0. congruence. }
+  apply NoDup_incl_length in I; [lia|]. apply NoDup_filter. exact ND.
+Qed.
+
+Hypothesis toolong_ok : forall tg x, toolong tg (H x) = false.
+
+(* TOTALITY of the agreed digest: once every r-ready has been handed over, a digest accepted by one honest party
+   (2t+1 r-ready, the precondition of every delivery on the Bracha path) is accepted by every honest party *)
+Theorem totality_digest : forall es p q tg d,
+  ready_quiescent (run es) -> dbar (gp (run es) p) tg = Some d -> hon q -> dbar (gp (run es) q) tg = Some d.
+Proof.
+  intros es p q tg d QU D Hq. destruct (INV3_run es) as (I & A0 & A1 & A2 & A3 & A4).
+  set (g := run es) in *.
+  (* the digest is a hash value, hence not over-long *)
+  assert (TL : toolong tg d = false).
+  { destruct (dbar_has_ready g I _ _ _ D) as (l & x & Ix & Tx & Ax & Px).
+    destruct (ready_has_send g I _ _ _ Ix Ax) as (e & m & _ & _ & Pm & _). rewrite <- Px, Pm. apply toolong_ok. }
+  (* the readys p has counted *)
+  pose proof I as (_ & C2 & _ & _ & _ & _ & A7 & _).
+  pose proof (A7 _ _ _ D) as R7.
+  destruct (C2 p tg d) as (Lp & NDp & Lenp & ALp).
+  (* whoever is not faulty and sent ready(tg,d) to anybody is in the list of every honest party *)
+  assert (K : forall q', hon q' -> forall L, (forall l, filt (gp g q') FReady l tg = true -> byz l = false ->
+                                              sent_ready g l q' tg d -> In l L) ->
+              forall l, 0 <= q' < n -> ~ In l B -> (exists dst, sent_ready g l dst tg d) -> In l L).
+  { intros q' Hq' L AC l Rq NB (dst & m & Im & Tm & Am & Pm).
+    assert (Nb : byz l = false). { destruct (byz l) eqn:Y; auto. exfalso. auto. }
+    pose proof (A1 _ _ _ Im Am q' Rq) as Iq. apply AC; auto.
+    - rewrite <- Tm. eapply QU; eauto.
+    - exists m. auto. }
+  assert (RANGE : forall q', hon q' -> 0 <= q' < n).
+  { intros q' Hq'. unfold honest, is_party in Hq'. b2p. lia. }
+  (* every honest party has t+1 readys *)
+  assert (E1 : forall q', hon q' -> t + 1 <= rd (gp g q') tg d).
+  { intros q' Hq'. destruct (A4 q' tg d TL) as (L & ND & Len & AF & AC).
+    assert (INC : incl (filter notB Lp) L).
+    { intros l J. apply filter_In in J. destruct J as [J NB]. apply notB_spec in NB.
+      destruct (ALp l J) as (_ & _ & [Y|(m & Im & Tm & Am & Pm)]); [exfalso; auto|].
+      apply (K q' Hq' L AC l (RANGE q' Hq') NB). exists p, m. auto. }
+    apply NoDup_incl_length in INC; [|apply NoDup_filter; exact NDp].
+    pose proof (filter_notB_length Lp NDp). lia. }
+  (* the list of all non-faulty parties *)
+  set (All := filter notB (range n)).
+  assert (NDA : NoDup All) by (apply NoDup_filter; apply range_nodup).
+  assert (LA : n - t <= Z.of_nat (length All)).
+  { pose proof (filter_notB_length (range n) (range_nodup n)) as X. unfold All.
+    unfold range in X at 1. rewrite map_length, seq_length in X. lia. }
+  destruct (A4 q tg d TL) as (L & ND & Len & AF & AC).
+  assert (Q2t : 2 * t + 1 <= rd (gp g q) tg d).
+  { destruct (Z.eq_dec t 0) as [T0|T0]; [specialize (E1 q Hq); lia|].
+    assert (INC : incl All L).
+    { intros l J. apply filter_In in J. destruct J as [J NB]. apply notB_spec in NB. apply range_in in J.
+      apply (K q Hq L AC l (RANGE q Hq) NB).
+      apply A2; [lia|]. left. apply E1. apply honest_of; auto. }
+    apply NoDup_incl_length in INC; auto. lia. }
+  pose proof (A3 _ _ _ Q2t) as NN. destruct (dbar (gp g q) tg) as [d'|] eqn:Dq; [|congruence].
+  f_equal. eapply (dbar_agree g I); eauto.
+Qed.
+
 End Bracha.
 
 (* ---- the property statements with a collision-free digest hash ------------------------------------------- *)
